@@ -1,5 +1,6 @@
 import DigModel.Proofs.ApiLemmas
 import DigModel.Proofs.Shape
+import DigModel.Proofs.RootCauseApi
 set_option linter.unusedSimpArgs false
 /-
   C20 — Callbacks fire once per execution with the true outcome (container without DryRun).
@@ -13,8 +14,9 @@ set_option linter.unusedSimpArgs false
   `C20_cached` / `C20_onstack`: a constructor that is already built, or currently being built, appends nothing.
   `C20_passive`: Provide/Decorate/Scope/Visualize/String report no callback event (from C03_passive):
   a rejected registration never fires one.
-  The lift to whole histories ("callbacks occur nowhere else") is carried by the K-callback
-  correspondence and the trace predicate `pred_c20`.
+  `C20_trace_shape`, `C20_cb_only_after_exit` (any Invoke, any state) and `C20_program_trace_shape` (whole histories:
+  every operation of every program): the reported events are execution blocks `enter·exit[·cb]` — callbacks occur
+  nowhere else, never twice, never without the execution they report.
 -/
 namespace Dig.C20
 
@@ -120,6 +122,41 @@ theorem C20_cb_only_after_exit (ctx : Ctx) (hnd : ctx.cfg.dry = false) (fn : Fn)
       · rw [e] at h; simp at h
       · rw [List.getElem?_eq_none (by simpa using e)] at h; cases h
 
+/-- **whole histories: callbacks occur nowhere else.**  For every program, the events reported by every operation are a
+    sequence of execution blocks (`enter·exit`, `enter·exit·cb`, or — DryRun only — a lone `cb`) of constructor and
+    decorator nodes, followed by the two events of the invoked function if there is one: a callback event never stands
+    alone (outside DryRun), never twice behind one execution, never behind the invoked function, and Provide, Decorate,
+    Scope, Visualize and String report no event at all -/
+theorem C20_program_trace_shape (p : Program) : ∀ r ∈ (runProgram p).2,
+    ∃ l t, r.ev = l ++ t ∧ Blocks p.cfg.dry l ∧
+      (t = [] ∨ (p.cfg.dry = false ∧ ∃ f x args k, t = [.enter .invoked f x args, .exit .invoked f x k])) := by
+  refine runOps_all p.ctx p.fns _ (fun st i op => ?_) p.ops 0 {} [] (fun r hr => by simp at hr)
+  cases hop : op.isInvoke with
+  | false =>
+    rw [step_passive p.ctx p.fns st i op hop]
+    exact ⟨[], [], rfl, Blocks.nil, Or.inl rfl⟩
+  | true =>
+    cases op with
+    | invoke s f info =>
+      simp only [Dig.step]
+      cases hf : fnOf p.fns f with
+      | none => exact ⟨[], [], rfl, Blocks.nil, Or.inl rfl⟩
+      | some fn =>
+        simp only
+        split
+        · obtain ⟨l, t, he, hb, ht, _⟩ := apiInvoke_shape p.ctx fn { st with log := [] } s info rfl
+          refine ⟨l, t, he, hb, ?_⟩
+          rcases ht with h | ⟨hd, x, args, k, h⟩
+          · exact Or.inl h
+          · exact Or.inr ⟨hd, fn.id, x, args, k, h⟩
+        · exact ⟨[], [], rfl, Blocks.nil, Or.inl rfl⟩
+    | scope _ => simp [Op.isInvoke] at hop
+    | provide _ _ _ => simp [Op.isInvoke] at hop
+    | decorate _ _ _ _ => simp [Op.isInvoke] at hop
+    | visualize _ _ => simp [Op.isInvoke] at hop
+    | string _ => simp [Op.isInvoke] at hop
+
+#print axioms C20_program_trace_shape
 #print axioms C20_ctor
 #print axioms C20_deco
 #print axioms C20_error_root
